@@ -322,6 +322,16 @@ int dequeue_block(sqfs_block_processor_t *proc)
 			return status ? status : SQFS_ERROR_INTERNAL;
 		}
 
+		/*
+		 * The workers may have failed on this block (or an earlier
+		 * one). Don't treat it as completed, report the error.
+		 */
+		status = proc->pool->get_status(proc->pool);
+		if (status != 0) {
+			release_old_block(proc, blk);
+			return status;
+		}
+
 		if (blk->flags & SQFS_BLK_IS_FRAGMENT) {
 			status = process_completed_fragment(proc, blk);
 			if (status != 0)
